@@ -258,6 +258,54 @@ impl Check for C12 {
                 }
             }
         });
+        // wide and tall surfaces: device coordinates beyond 256
+        let wide: Vec<(&'static str, Vec<f32>)> = vec![
+            ("linear", vec![250., 0., 290., 0.]),
+            ("linear", vec![10., 1., 280., 1.]),
+            ("radial", vec![270., 1., 20.]),
+            ("twocircle", vec![270., 1., 2., 272., 1., 25.]),
+            ("sweep", vec![265., -6., 0., 360.]),
+        ];
+        run.bound("wide-tall", format!("{} geometries (and their transposes on 2x300) on 300x2 x {} stop sets x 3 spreads x 2 alphas", wide.len(), stops.len().min(3)));
+        run.par(wide.len() * 2, |s, l| {
+            let (kind, p) = &wide[s / 2];
+            let tall = s % 2 == 1;
+            let p: Vec<f32> = if tall && *kind != "sweep" {
+                match p.len() {
+                    4 => vec![p[1], p[0], p[3], p[2]],
+                    3 => vec![p[1], p[0], p[2]],
+                    _ => vec![p[1], p[0], p[2], p[4], p[3], p[5]],
+                }
+            } else if tall {
+                vec![p[1], p[0], p[2], p[3]]
+            } else {
+                p.clone()
+            };
+            let (w, h) = if tall { (2, 300) } else { (300, 2) };
+            for st in stops.iter().take(3) {
+                for spread in [Spr::Pad, Spr::Repeat, Spr::Reflect] {
+                    for alpha in [1.0f32, 0.5] {
+                        let src = make(kind, &p, st.clone(), spread);
+                        let scene = Scene { w, h, dst: Dst::White, ops: vec![Op::Fill(PathSpec::rect(-200., -200., 800., 800.), src, Opts { mode: BlendMode::Src, alpha, aa: true })] };
+                        l.states += 1;
+                        l.transitions += 1;
+                        l.traces += 1;
+                        l.evals += 1;
+                        match eval(&scene) {
+                            Ok((hsh, n, sk)) => {
+                                l.outcome(hsh);
+                                l.count("pixels_asserted", n);
+                                l.count("pixels_not_asserted_discontinuity", sk);
+                                if n >= 100 {
+                                    l.nontrivial += 1;
+                                }
+                            }
+                            Err(v) => run.report(10_000 + s, v),
+                        }
+                    }
+                }
+            }
+        });
     }
 
     fn replay(&self, case: &str) -> Result<Option<Violation>, String> {
